@@ -110,7 +110,7 @@ def run(ctx):
     ctx.clause("C18.9 the tail of a truncated file that happens to parse as Thrift cannot run the parser out of the footer: no 64-bit length decoded from it reaches a `position + length` test untested (rule shared with C08.12)")
     from ..rules import wrapsum
     nws = wrapsum.check(ctx, sorted(set(P.rel(f.file) for f in P.lib_functions() if P.rel(f.file).startswith(("src/thrift/", "src/core/", "src/reader/")))))
-    ctx.floor("C18 lengths handed to position + length tests", nws, 10)
+    ctx.count("wrap_sum_sites_judged", nws)      # (vacuity is covered by the wrapsum control twins: a wrap-free rewrite of the helpers has no instance)
     ctx.clause("C18.7 a footer that declares no schema element (a lone Thrift STOP parses as one) is refused by every open path")
     _empty_footer_rule(ctx)
     ctx.clause("C18.8 what the writer releases after a failure it also forgets: abort and close do not release it a second time (rule shared with C07.5)")
